@@ -246,6 +246,14 @@ func (g *gen) text() int {
 	if g.chance(45) {
 		return g.lastText
 	}
+	if g.chance(9) { // a text that differs from an earlier one in letter case only (envelope.go)
+		if g.lastText >= caseFirst && g.lastText < caseEnd {
+			g.lastText = caseTwin(g.lastText)
+		} else {
+			g.lastText = envFirst + g.pick(caseEnd-envFirst)
+		}
+		return g.lastText
+	}
 	if g.chance(18) { // one response key selected several times under variable-driven @include/@skip (sched.go)
 		g.lastText = mergeFirst + g.pick(mergeEnd-mergeFirst)
 		return g.lastText
